@@ -331,7 +331,10 @@ def _root_.DepLogic.Atom.exactView (a : Atom) : Bool :=
   -- the `fix:` for D24: implementation_version is compared as a version by `_evaluate` but as a string by its
   -- specifier view (it is not in `_VERSION_LIKE_MARKER_NAME`)
   if versionEvalNames.contains a.name && !versionLikeNames.contains a.name then false
-  else if !a.reversed || !versionLikeNames.contains a.name then true
+  else if !versionLikeNames.contains a.name then true
+  -- the `fix:` for D35: the operand of a comparison is one version, not a specifier expression
+  else if a.op != .in_ && a.op != .notIn && (a.value.toList.contains ',' || a.value.toList.contains '|') then false
+  else if !a.reversed then true
   -- the `fix:` for D26: `"lit" in name` tests the literal against the value as a substring
   else if a.op == .in_ || a.op == .notIn then false
   else a.op != .compat && (splitDots a.value).all fun p => (SpecParse.natOfDigits? p.toList).isSome
@@ -763,6 +766,8 @@ def only : Nat → M → List String → M
     that contains a double quote (and no single quote), `\x22` otherwise -/
 def quoteS (v : String) : String :=
   let v := ((v.replace "\\" "\\\\").replace "\n" "\\n").replace "\r" "\\r"
+  -- the `fix:` for D36: a NUL is written as an escape (a Lean `Char` is never a surrogate)
+  let v := v.replace (String.singleton (Char.ofNat 0)) "\\u0000"
   if v.contains '"' && !v.contains '\'' then "'" ++ v ++ "'"
   else "\"" ++ v.replace "\"" "\\x22" ++ "\""
 
